@@ -39,7 +39,7 @@ def cases(ctx):
             if vdoc not in seen:
                 seen.add(vdoc)
                 yield {'doc': vdoc, 'rule': rule}
-        if i % 8 == 0:       # the two rule instances the unchanged parser is known to accept (known_findings.txt)
+        if i % 8 == 0:       # the rule instances the unchanged parser is known to accept (known_findings.txt)
             for rule, fn in omgen.KNOWN_RULES.items():
                 for vdoc in fn(rng, doc)[:2]:
                     if vdoc not in seen:
